@@ -140,7 +140,11 @@ func VerifCrashHistory() {
 		return t
 	}
 	for s := 0; s < steps; s++ {
-		switch rt.Choose(3) {
+		kind := 0
+		if s >= rt.Param("ACKED_PREFIX") { // the first ACKED_PREFIX steps are acknowledged bulks; every later step is arbitrary
+			kind = rt.Choose(3)
+		}
+		switch kind {
 		case 0: // a bulk that is written and acknowledged
 			b := &vBulk{docsOff: int64(len(docs.data)), docsByte: rt.NondetU8(), metaByte: byte(0xA0 + s)} // the metadata payload identifies the bulk
 			db := disk.PackDocBlock([]byte{b.docsByte}, nil)
